@@ -351,23 +351,40 @@ func (f *Fix) VictimView(e *sim.Env, u sdk.AccAddress) string {
 	return hashStrings(xs)
 }
 
-// HookView counts, for one app, what a sweep / auction starter can produce.
+// HookView lists, for one app, what a sweep / auction starter can produce: the seized positions and the auctions, by identity.
+// A live auction and its historical record carry the same key, so an auction that is started and closed inside one hook still
+// shows up as new, and a close-out that only retires a locked vault or an auction shows nothing new.
 type HookView struct {
-	Seized   int64 `json:"seized"`   // locked vaults (both generations) + borrows flagged liquidated
-	Auctions int64 `json:"auctions"` // live + historical auctions of both generations
+	Seized   int64           `json:"seized"`   // locked vaults (both generations) + borrows flagged liquidated
+	Auctions int64           `json:"auctions"` // live + historical auctions of both generations
+	SeizedID map[string]bool `json:"-"`
+	AucID    map[string]bool `json:"-"`
+}
+
+// NewIn counts the keys of post that pre does not have.
+func NewIn(pre, post map[string]bool) int64 {
+	n := int64(0)
+	for k := range post {
+		if !pre[k] {
+			n++
+		}
+	}
+	return n
 }
 
 func (f *Fix) HookViewOf(e *sim.Env, app uint64) HookView {
 	a := e.App
-	var v HookView
+	v := HookView{SeizedID: map[string]bool{}, AucID: map[string]bool{}}
 	for _, lv := range a.NewliqKeeper.GetLockedVaults(e.Ctx) {
 		if lv.AppId == app {
 			v.Seized++
+			v.SeizedID[fmt.Sprintf("l2:%d", lv.LockedVaultId)] = true
 		}
 	}
 	for _, lv := range a.LiquidationKeeper.GetLockedVaults(e.Ctx) {
 		if lv.AppId == app {
 			v.Seized++
+			v.SeizedID[fmt.Sprintf("l1:%d", lv.LockedVaultId)] = true
 		}
 	}
 	if app == f.AppCommodo {
@@ -375,23 +392,38 @@ func (f *Fix) HookViewOf(e *sim.Env, app uint64) HookView {
 		for _, id := range ids {
 			if b, found := a.LendKeeper.GetBorrow(e.Ctx, id); found && b.IsLiquidated {
 				v.Seized++
+				v.SeizedID[fmt.Sprintf("b:%d", id)] = true
 			}
 		}
 	}
 	for _, au := range a.NewaucKeeper.GetAuctions(e.Ctx) {
 		if au.AppId == app {
 			v.Auctions++
+			v.AucID[fmt.Sprintf("a2:%d", au.AuctionId)] = true
 		}
 	}
 	for _, au := range a.NewaucKeeper.GetAuctionHistoricals(e.Ctx) {
 		if au.AuctionHistorical != nil && au.AuctionHistorical.AppId == app {
 			v.Auctions++
+			v.AucID[fmt.Sprintf("a2:%d", au.AuctionHistorical.AuctionId)] = true
 		}
 	}
-	v.Auctions += int64(len(a.AuctionKeeper.GetSurplusAuctions(e.Ctx, app)) + len(a.AuctionKeeper.GetHistorySurplusAuctions(e.Ctx, app)) +
-		len(a.AuctionKeeper.GetDebtAuctions(e.Ctx, app)) + len(a.AuctionKeeper.GetHistoryDebtAuctions(e.Ctx, app)) +
-		len(a.AuctionKeeper.GetDutchAuctions(e.Ctx, app)) + len(a.AuctionKeeper.GetHistoryDutchAuctions(e.Ctx, app)) +
-		len(a.AuctionKeeper.GetDutchLendAuctions(e.Ctx, app)) + len(a.AuctionKeeper.GetHistoryDutchLendAuctions(e.Ctx, app)))
+	for _, x := range append(a.AuctionKeeper.GetSurplusAuctions(e.Ctx, app), a.AuctionKeeper.GetHistorySurplusAuctions(e.Ctx, app)...) {
+		v.Auctions++
+		v.AucID[fmt.Sprintf("s1:%d", x.AuctionId)] = true
+	}
+	for _, x := range append(a.AuctionKeeper.GetDebtAuctions(e.Ctx, app), a.AuctionKeeper.GetHistoryDebtAuctions(e.Ctx, app)...) {
+		v.Auctions++
+		v.AucID[fmt.Sprintf("d1:%d", x.AuctionId)] = true
+	}
+	for _, x := range append(a.AuctionKeeper.GetDutchAuctions(e.Ctx, app), a.AuctionKeeper.GetHistoryDutchAuctions(e.Ctx, app)...) {
+		v.Auctions++
+		v.AucID[fmt.Sprintf("u1:%d", x.AuctionId)] = true
+	}
+	for _, x := range append(a.AuctionKeeper.GetDutchLendAuctions(e.Ctx, app), a.AuctionKeeper.GetHistoryDutchLendAuctions(e.Ctx, app)...) {
+		v.Auctions++
+		v.AucID[fmt.Sprintf("w1:%d", x.AuctionId)] = true
+	}
 	return v
 }
 
